@@ -49,6 +49,10 @@ func init() {
 			for _, u := range enum.SeqUnits("bytes", "alias", len(enum.ByteAlphabets["alias"]), L-1, 2) {
 				us = append(us, core.Unit{Name: u})
 			}
+			// line ends (CR, LF) inside and between phrases, regexps and escapes
+			for _, u := range enum.SeqUnits("bytes", "nl", len(enum.ByteAlphabets["nl"]), L+1, 2) {
+				us = append(us, core.Unit{Name: u})
+			}
 			return us
 		},
 		Run: func(w *core.Worker, tier, unit string) {
@@ -60,7 +64,7 @@ func init() {
 		},
 		Eval:   c16Eval,
 		Shrink: shrinkBytes,
-		Rule: "BYTES(B_lex,L) ∪ BYTES(B_utf8,L+1) ∪ BYTES(B_kw,L) ∪ BYTES(B_alias,L-1): every byte string over the class representatives, depth-first; " +
+		Rule: "BYTES(B_lex,L) ∪ BYTES(B_utf8,L+1) ∪ BYTES(B_kw,L) ∪ BYTES(B_alias,L-1) ∪ BYTES(B_nl,L+1): every byte string over the class representatives, depth-first; " +
 			"on each, every Peek/Next call sequence of length <= D against the stream model; non-trivial = lexes without error token to >= 1 token; " +
 			"distinct = distinct token-type sequences",
 		Assumptions: []string{
@@ -242,6 +246,8 @@ func c16Eval(c core.Case) (res core.Result) {
 		mustFail = "lexer stream contains an error token"
 	} else if why := independentMustFail(in); why != "" {
 		mustFail = why
+	} else if why := refScan(in); why != "" {
+		mustFail = why
 	}
 	if mustFail != "" {
 		var err error
@@ -326,6 +332,65 @@ func independentMustFail(in string) string {
 			}
 			prevOK = strings.ContainsRune(" \t\r\n()[]{}:+=><~^", rune(b))
 			i += w
+		}
+	}
+	return ""
+}
+
+// refScan is a reference scanner for the three must-fail classes on arbitrary valid UTF-8 input,
+// written from the documented token classes and nothing else: blanks separate tokens; a phrase
+// runs from a quote character to the next occurrence of the same character (no escapes inside);
+// a regexp runs from a slash to the next slash that is not preceded by an odd run of escaping
+// backslashes (a backslash escapes the character after it); a word is made of letters, digits,
+// underscore, * ? . - and escape pairs, and starts with none of . ; the one-character symbols are
+// ()[]{}:+=><~^ and - . Everything else cannot start a token. It returns why the input must fail,
+// or "" if it found no lexical error.
+func refScan(in string) string {
+	if !utf8.ValidString(in) {
+		return "" // cut runes are covered by the byte rules above
+	}
+	rs := []rune(in)
+	word := func(r rune) bool {
+		return r == '_' || unicode.IsLetter(r) || unicode.IsDigit(r) || r == '*' || r == '?'
+	}
+	i := 0
+	for i < len(rs) {
+		r := rs[i]
+		switch {
+		case r == ' ' || r == '\t' || r == '\r' || r == '\n':
+			i++
+		case r == '"' || r == '\'':
+			j := i + 1
+			for j < len(rs) && rs[j] != r {
+				j++
+			}
+			if j >= len(rs) {
+				return fmt.Sprintf("phrase opened by %q at rune %d is not terminated", r, i)
+			}
+			i = j + 1
+		case r == '/':
+			j := i + 1
+			for j < len(rs) && rs[j] != '/' {
+				if rs[j] == '\\' {
+					j++
+				}
+				j++
+			}
+			if j >= len(rs) {
+				return fmt.Sprintf("regexp opened at rune %d is not terminated", i)
+			}
+			i = j + 1
+		case strings.ContainsRune("()[]{}:+=><~^-", r):
+			i++
+		case word(r) || r == '\\':
+			for i < len(rs) && (word(rs[i]) || rs[i] == '.' || rs[i] == '-' || rs[i] == '\\') {
+				if rs[i] == '\\' {
+					i++
+				}
+				i++
+			}
+		default:
+			return fmt.Sprintf("rune %q at %d cannot start a token", r, i)
 		}
 	}
 	return ""
